@@ -64,6 +64,19 @@ Theorem integral_floats_depend_on_nan : forall col,
 Proof. exact table_integral_floats. Qed.
 Print Assumptions integral_floats_depend_on_nan.
 
+(* 2c. MAGNITUDE INDEPENDENCE of the whole-number rule (`(ser % 1 == 0).all()` + the
+       frequency rule of infer_series_stype, numeric branch): multiplying every value
+       of a whole-valued numeric column by a non-zero integer -- 3 or 10^19 or 2^300 --
+       never changes the decision.  The values are exact rationals in the model, so no
+       integer width or float precision enters. *)
+Definition whole_number (c : cell) : bool := is_num_cell c && is_integral c.
+
+Theorem whole_number_rule_ignores_magnitude : forall k col,
+  k <> 0%Z -> column_of whole_number col ->
+  infer_series_stype (map (scale_cell k) col) = infer_series_stype col.
+Proof. exact infer_scale_invariant. Qed.
+Print Assumptions whole_number_rule_ignores_magnitude.
+
 (* 3. booleans infer categorical, with or without missing cells *)
 Theorem bool_is_categorical : forall col,
   column_of is_bool_cell col -> dropna col <> [] ->
@@ -132,6 +145,15 @@ Theorem strings_by_spec : forall col,
   infer_series_stype col = Inferred (Some (string_table_spec (dropna col))).
 Proof. exact table_string_spec. Qed.
 Print Assumptions strings_by_spec.
+
+(* 6c. PRIORITIES of the string part of the table, for every column of strings (dates,
+       non-dates, or both): timestamp wins over everything, then repeated whole strings
+       (categorical), then repeated tokens (multicategorical), then free text *)
+Theorem string_decision_priorities : forall col,
+  column_of is_strlike col -> dropna col <> [] ->
+  infer_series_stype col = Inferred (Some (string_column_decision (dropna col))).
+Proof. exact string_priority. Qed.
+Print Assumptions string_decision_priorities.
 
 (* 7. numeric lists: embedding iff all lists have one length and only finite floats,
       otherwise numerical sequence *)
@@ -351,4 +373,32 @@ Example rows_with_token_example :
   rows_with_token "|"%char "a" (dropna mc5) = 5 /\ rows_with_token "|"%char "a" (dropna (tl mc5)) = 4 /\
   rows_with_token "|"%char "c" [Str "c | c"] = 1 /\
   multicat_spec (dropna mc5) = true /\ multicat_spec (dropna (tl mc5)) = false.
+Proof. repeat split; vm_compute; reflexivity. Qed.
+
+(* 2c is not vacuous, and the int64-cast variant of the rule is REFUTED: a column of
+   whole floats beyond the int64 range with a missing cell.  The code (and the model)
+   say numerical -- every value occurs 3 times; counting the values after
+   astype('int64') makes them all INT64_MIN and says categorical (seeded change C18_12).
+   The harness replays this column against /repo in every run (boundary
+   wholefloat_cast_witness). *)
+Definition e19 (k : Z) : cell := Float (inject_Z (k * 10 ^ 19)).
+Definition cast_witness : list cell := [e19 1; e19 2; e19 1; e19 2; Missing; e19 1; e19 2].
+Example cast_witness_whole : column_of whole_number cast_witness.
+Proof. vm_compute. reflexivity. Qed.
+Example int64_cast_variant_refuted :
+  infer_series_stype cast_witness = Inferred (Some st_numerical) /\
+  infer_after_int64_cast cast_witness = Inferred (Some st_categorical).
+Proof. split; vm_compute; reflexivity. Qed.
+Example magnitude_example :
+  infer_series_stype (map (scale_cell (2 ^ 300)) cast_witness) = infer_series_stype cast_witness /\
+  infer_series_stype (repeat (Int 3) 5 ++ [Missing]) = Inferred (Some st_categorical) /\
+  infer_series_stype (map (scale_cell (10 ^ 19)) (repeat (Int 3) 5 ++ [Missing])) = Inferred (Some st_categorical).
+Proof. repeat split; vm_compute; reflexivity. Qed.
+
+(* 6c on witnesses: a date repeated 5 times is a timestamp, not a category; repeated whole
+   strings win over their repeated tokens *)
+Example priority_examples :
+  infer_series_stype (repeat (iso "2020-01-02") 5) = Inferred (Some st_timestamp) /\
+  infer_series_stype (strs "a|b" 5 ++ strs "b|a" 5) = Inferred (Some st_categorical) /\
+  infer_series_stype (strs "a|b" 4 ++ strs "b|a" 4) = Inferred (Some st_multicategorical).
 Proof. repeat split; vm_compute; reflexivity. Qed.
